@@ -15,17 +15,19 @@ use typst_syntax::{
 /// Directly translate a span ($a) in a Typst source ($doc) to a token.
 macro_rules! def_token {
     ($doc:expr, $a:expr, $kind:expr, $offset:ident) => {{
-        let range = $doc.range($a.span()).unwrap();
-        let start = $offset.push_to(range.start);
-        let end_char_loc = start.push_to(range.end).char;
+        // Nodes the parser synthesized for incomplete input have no location in the source.
+        $doc.range($a.span()).map(|range| {
+            let start = $offset.push_to(range.start);
+            let end_char_loc = start.push_to(range.end).char;
 
-        Some(vec![Token {
-            span: harper_core::Span {
-                start: start.char,
-                end: end_char_loc,
-            },
-            kind: $kind,
-        }])
+            vec![Token {
+                span: harper_core::Span {
+                    start: start.char,
+                    end: end_char_loc,
+                },
+                kind: $kind,
+            }]
+        })
     }};
 }
 
